@@ -1,5 +1,7 @@
 // Command c14stress: the "stop precedes start" timing of C14.  Repeats
-//   Run -> RequestStop -> AwaitStop -> bind both addresses
+//
+//	Run -> RequestStop -> AwaitStop -> bind both addresses
+//
 // on fixed addresses.  After AwaitStop returns both listeners must be released, so the binds
 // must succeed and the next cycle's server must be able to start (no panic).
 // Runs as a child process because the failure mode includes a panic in a server goroutine.
